@@ -25,10 +25,11 @@ CHECKS = {
              "(some component can always make a useful move while the session has not ended) and TERMINATION (an explicit measure decreases with every useful step; a maximal run has ended). "
              "For load ALSO WITH arbitrary worker crashes (CrashProgress.v, CrashTermination.v): no stand-off for any restart budget, re-queueing, differing collections; termination for every finite budget. "
              "Without failures ALL modes: no stand-off and termination (Progress*.v, Termination*.v; worksteal incl. a bound of 8*tests+1 on the withdrawal requests ever issued). WITH arbitrary crashes: no stand-off for load, worksteal, "
-             "the scope family (any collections, any budget) and each (when collections agree; otherwise the recorded finding); termination with crashes for load. Partial: a termination measure with failures for the other modes.", design="5/C02", technique=TECH),
+             "the scope family (any collections, any budget) and each (when collections agree; otherwise the recorded finding); termination with crashes (finite budget) for load, the scope family and each. Partial: a termination measure with failures for worksteal.", design="5/C02", technique=TECH),
  "C03": dict(text=SYS + "Proved (all states/events): one death notice yields at most one crash report, no other event yields one; the crash item is the head of the dead node's book / first "
              "undone test, the rest returns to the pool once, finished units are not re-queued. SYSTEM level for --dist load with arbitrary crashes (CrashTheorems.v, CrashTokens.v): every crash report names the test the dead worker was executing or "
-             "about to start; without a re-queueing plugin no test is ever started twice; pool ++ all workers' holdings ++ crashed tests is a permutation of the collection.", design="5/C03", technique=TECH),
+             "about to start; without a re-queueing plugin no test is ever started twice; pool ++ all workers' holdings ++ crashed tests is a permutation of the collection; the same for the scope family (CrashScopeTheorems.v) and worksteal "
+             "(CrashStealTokens.v: withdrawals in flight when the victim dies included).", design="5/C03", technique=TECH),
  "C04": dict(text=SYS + "Proved at SYSTEM level for every configuration and schedule (crashes, replacements): produced(n) = forwarded(n) ++ in controller queue ++ on the wire (FIFO, once, tagged). "
              "Content fidelity (pytest's report serialisation), tallies and exit status are compared in real -n runs against the in-process run.", design="5/C04", technique=TECH + "; real pytest runs for the glue"),
  "C05": dict(text="Theorems for every command stream and every interleaving of receiver-thread lock sections with the main thread (Model/Worker.v): run order = assigned not-withdrawn prefix, "
